@@ -163,7 +163,17 @@ class ProxyHandler(RequestHandler):
                 response.status,
             )
 
-            # Pass through the response as-is
+            # Pass through the response as-is. A text body was decoded by the
+            # client with the charset the upstream declared; relaying the
+            # decoded string would re-encode it as UTF-8 under the original
+            # header, so the bytes received from the upstream are sent instead.
+            if response.raw_body is not None:
+                return GeminiResponse(
+                    status=response.status,
+                    meta=response.meta,
+                    body=response.raw_body,
+                    url=response.url,
+                )
             return response
 
         except TimeoutError:
